@@ -35,7 +35,7 @@ use serde_json::{json, Value};
 /// event is not emitted into the script (the case still records that it was generated) and the
 /// exclusion is counted. `VERIF_NO_EXCLUDE=1` (or a case with `allow_known: true`, as the pinned
 /// reproducer under replays/known/C16) lets the duplicate through.
-const EXCLUDE_KNOWN_DUP_DONE: bool = true;
+const EXCLUDE_KNOWN_DUP_DONE: bool = false;
 
 const MAX_TOOL_CALLS: usize = 32; // ADR-0005 "global cap"; provider_openresponses.rs DEFAULT_MAX_TOOL_CALLS
 const PROMPT: &str = "please do the thing";
